@@ -133,6 +133,10 @@ def run(R):
     R.floor("C05-R5", "iterations over rule components", nit, 10)
 
     # ---- R6 delta feeds every premise position / every rule
+    R.rule("C05-R7", "match-or-bind is the last word on a binding row: after a premise position was matched against (or bound in) a row by "
+                     "a match-or-bind helper, nothing overwrites entries of that row before it is emitted - a plain insert after the "
+                     "test can replace the very value the test just accepted (repeated variable across positions)")
+    r7(R)
     R.rule("C05-R6", "delta discipline: inside the per-position / per-rule loops of the semi-naive strategies the join against "
                      "last round's facts (delta) runs on every iteration (no conditional skip of a position or rule)")
     nd = 0
@@ -335,3 +339,43 @@ def _premise_len_dispatch(x, t):
     if d[0] == "assign" and d[3]["rv"] == "use" and is_len(d[3]["op"]):
         return [("len==%s" % v, tgt) for v, tgt in t["targets"]] + [("len other", t["otherwise"])]
     return None
+
+
+def r7(R):
+    prog = R.prog
+    helpers = []
+    for b in prog.bodies.values():
+        if b.crate not in ("shared", "datalog") or b.is_closure or "::tests::" in b.key:
+            continue
+        if b.nargs < 1 or not b.local_ty(1).startswith("&mut") or "Map<alloc::string::String, alloc::string::String" not in b.local_ty(1):
+            continue
+        if b.local_ty(0) != "bool":
+            continue
+        names = [c.name() for c in b.calls() if c.args and b.alias_root(c.args[0]) == 1]
+        if "get" in names and "insert" in names:
+            helpers.append(b)
+    R.floor("C05-R7", "match-or-bind helpers (bool fn(&mut row, ..) that both looks a variable up and inserts it)", len(helpers), 1)
+    hk = {h.key for h in helpers}
+    n = 0
+    for b in sorted(prog.bodies.values(), key=lambda x: x.key):
+        if b.crate not in ("shared", "datalog") or "::tests::" in b.key or b.key in hk:
+            continue
+        uses = [c for c in b.calls() if c.key in hk]
+        if not uses:
+            continue
+        R.saw(b)
+        for c in uses:
+            n += 1
+            row = b.alias_root(c.args[0])
+            later = []
+            hdrs = {h for h, blks in b.loops_containing(c.bb)}
+            after = b.reach_from(b.succ(c.bb), avoid=hdrs)
+            for x in b.calls():
+                if x.bb in after and x.name() in ("insert", "extend", "append", "entry", "remove", "clear", "retain") and x.args \
+                        and b.alias_root(x.args[0]) == row and x is not c:
+                    later.append(x)
+            R.ob("C05-R7", "last:%s:%s" % (short(b), c.ln and "" or ""), "in %s nothing writes the row after %s matched/bound the premise position (later writes: %s)"
+                 % (short(b), prog.bodies[c.key].name, [x.name() for x in later]), not later, where=b.where(c.ln),
+                 detail=None if not later else "for a premise that repeats the variable (`?x ?x ?y`) the later insert overwrites the checked binding: the "
+                 "premise then matches triples it must not match and unsupported facts are derived")
+    R.floor("C05-R7", "match-or-bind call sites", n, 1)
